@@ -1472,7 +1472,7 @@ def rule_count_prov(chk, eng):
 
 
 # ----------------------------------------------------------------------------
-def analyse(chk):
+def _analyse_own(chk):
     tree = chk.tree
     chk.rule("ffi", "ctypes call sites conform to the C prototypes (SysV landing slots, kinds, restype, callbacks)")
     chk.rule("len-agree", "symbolic lengths of usps / ueg vector / normalizer list equal nfeat; one component order")
@@ -1523,6 +1523,12 @@ def analyse(chk):
     ]
     chk.not_decided += ["out-of-bounds freedom of the C loops themselves (needs value ranges)",
                         "ctypes calls in ciderpress/gpaw; C sources that need Python.h (pwutil/gpaw_interface.c, nldf_fft_mpi.c)"]
+
+
+def analyse(chk):
+    _analyse_own(chk)
+    chk.guard(lambda c_: core.include_findings(c_, 'C09', files=['ciderpress/dft/plans.py'], rules=['ctor-roundtrip'],
+                                               why='plan.new() must hand the original guard/cutoff arguments to the constructor, otherwise the large-exponent guard of the copy differs'))
 
 
 def mutants(tree):
